@@ -78,8 +78,26 @@ def targeted_case(g, j):
     parameter whose context value is None; a list key rewritten element-wise equal."""
     k = g.rng.choice(["factor", "addend", "a", "seen"])
     v = g.rng.choice([1, 2, 3])
-    pat = j % 7
-    if pat == 4:
+    pat = j % 10
+    if pat == 7:
+        # long values (repr far beyond 200 characters) that a node changes ONLY IN THE TAIL: a 60-item list in the context,
+        # a 50-item collection in the data channel
+        nodes = [{"processor": "VCollSrc", "parameters": {"n": 50, "start": 1000.5}}, {"processor": "VCtxBumpLast"},
+                 {"processor": "CopyDataProbe", "context_key": "snap"},            # the data OBJECT itself goes into the context
+                 {"processor": "VCollBumpLast"}, {"processor": "VCtxBumpLast"},
+                 {"processor": "CopyDataProbe", "context_key": "snap"},            # ... and is replaced by one that differs in its tail only
+                 {"processor": "VCollSum"}]
+        ctx = {"long_seq": [1000.25 + i for i in range(60)]}
+    elif pat == 8:
+        # two DIFFERENT classes with the same name (two plugins), both left to their defaults
+        nodes = [{"processor": "vlib.components_extra:XSrcDefault"}, {"processor": "vlib.components_extra:XMulDefault"}, {"processor": "DataDump"},
+                 {"processor": "vlib.components_extra2:XSrcDefault"}, {"processor": "vlib.components_extra2:XMulDefault"}]
+        ctx = {}
+    elif pat == 9:
+        nodes = [{"processor": "vlib.components_extra2:XSrcDefault"}, {"processor": "vlib.components_extra2:XMulDefault"}, {"processor": "DataDump"},
+                 {"processor": "vlib.components_extra:XSrcDefault"}, {"processor": "vlib.components_extra:XMulDefault"}]
+        ctx = {}
+    elif pat == 4:
         # ONE processor class used by several nodes of the run with different parameter placements: context first, then
         # (the key being gone) the node configuration
         nodes = [{"processor": "VSrc", "parameters": {"value": float(v)}}, {"processor": "VMul"}, {"processor": "delete:factor"},
@@ -146,6 +164,9 @@ def check_case(run, case, detail, tz, scratch, digests, warmup_ctx=None):
         return None
     sers = [r for r in tr.records if r.get("record_type") == "ser"]
     recs = probe.node_records()
+    real_leaves = list(real.leaves or [])
+    if len(real_leaves) != len(m.leaves):
+        real_leaves = []          # leaf sequences differ (C01's business): no per-node attribution of the flight record
     run.count("node_probe_hits", probe.hits)
     if len(sers) != len(recs) or len(sers) != len(m.nodes):
         run.count("ser_count_differs_from_probe")  # C06's business
@@ -203,6 +224,17 @@ def check_case(run, case, detail, tz, scratch, digests, warmup_ctx=None):
                 viol(f"parameter_value_wrong:{okind}_sourced", f"SER parameters['{name}']={params[name]!r}, value actually passed {nt.params[name]!r}", i)
             if sources.get(name) != want_src:
                 viol(f"parameter_source_wrong:reported_{sources.get(name)}_actual_{want_src}", f"SER parameter_sources['{name}']={sources.get(name)!r}, actual channel {want_src}", i)
+        # ---- the value the leaf REALLY received (flight recorder), where the component records its calls
+        lr = getattr(nt, "leaf_range", None)
+        if nm.recorded and nm.sweep is None and not nm.slicer and lr and lr[1] - lr[0] == 1 and lr[0] < len(real_leaves):
+            _lcls, _ldata, lkw = real_leaves[lr[0]]
+            for name, lval in (lkw or {}).items():
+                if name in params:
+                    run.count("parameters_compared_with_leaf_record")
+                    sv = account.plain(params[name])
+                    if not (account.close(sv, account.plain(lval)) or (isinstance(sv, str) and not isinstance(lval, str))):
+                        viol("parameter_value_differs_from_value_received_by_processor",
+                             f"SER parameters['{name}']={params[name]!r} but the processor of node {i} received {lval!r}", i)
         # ---- built-in checks
         pre = {c.get("code"): c for c in (ser.get("assertions") or {}).get("preconditions", [])}
         post = {c.get("code"): c for c in (ser.get("assertions") or {}).get("postconditions", [])}
